@@ -21,13 +21,13 @@ def body(run):
     q = run.quick()
     exe = [None]
     res = run.parallel(
-        lambda: run.tlc("ScRecv", "ScRecv_MC", "ScRecv_c13_mc.cfg", label="contract: open request ids, MaxChunks 3, interleaved"),
-        lambda: run.tlc("ScRecv", "ScRecv_MC", "ScRecv_c13_dev.cfg", expect="violation", count=False,
+        lambda: run.tlc("ScRecv", "ScRecv_MC", "ScRecv_c13_mc.cfg", workers=2, label="contract: open request ids, MaxChunks 3, interleaved"),
+        lambda: run.tlc("ScRecv", "ScRecv_MC", "ScRecv_c13_dev.cfg", workers=1, expect="violation", count=False,
                         label="deviation demo: per-request-id bound violates InvBounded"),
         lambda: run.tlc("ScRecv", "ScRecv_MC", "ScRecv_c13_flood_q.cfg" if q else "ScRecv_c13_flood_t.cfg", mode="gen", count=False,
                         label="flood behaviours (MaxChunks 4)"),
-        lambda: run.tlc("ScRecv", "ScGarbage", "ScGarbage_mc.cfg", label="garbage table: no row allows panic / hang"),
-        lambda: run.tlc("ScRecv", "ScGarbage", "ScGarbage_dev.cfg", expect="violation", count=False,
+        lambda: run.tlc("ScRecv", "ScGarbage", "ScGarbage_mc.cfg", workers=1, label="garbage table: no row allows panic / hang"),
+        lambda: run.tlc("ScRecv", "ScGarbage", "ScGarbage_dev.cfg", workers=1, expect="violation", count=False,
                         label="deviation demo: missing length check puts panic into the table"),
         lambda: run.tlc("ScRecv", "ScGarbage", "ScGarbage_gen.cfg", mode="gen", count=False, label="garbage rows"),
         lambda: exe.__setitem__(0, run.go_build("screcv")),
